@@ -12,8 +12,11 @@ NAMES = ["Ma", "Mb", "Mc", "Md"]
 FIELD_TYPES = [("u8", 8), ("u16", 16), ("u32", 32)]
 
 
-def gen_device(rng, nmsg=None, periods=None):
-    nmsg = nmsg or rng.randint(1, 4)
+DEVNAMES = ["ecu", "dash"]
+
+
+def gen_device(rng, nmsg=None, periods=None, two=False):
+    nmsg = nmsg or rng.randint(2 if two else 1, 4)
     msgs = []
     for k in range(nmsg):
         nf = rng.randint(1, 2)
@@ -26,8 +29,19 @@ def gen_device(rng, nmsg=None, periods=None):
             p = rng.choice([-1, 1, 2, 3, 5, 10, 15, 20, 100, 1000, 65536, (1 << 31) - 1])
         # "no period" is written either as `period: -1` or by leaving the field out
         msgs.append({"name": NAMES[k], "id": rng.randint(0, 2047), "period": p, "fields": fields,
-                     "omit_period": p == -1 and rng.random() < 0.6})
-    return {"msgs": msgs}
+                     "omit_period": p == -1 and rng.random() < 0.6, "dev": 0})
+    if two:
+        # two devices in one schema, both schedulers linked into one program (each has its own call history)
+        for m in msgs:
+            m["dev"] = rng.randint(0, 1)
+        msgs[0]["dev"], msgs[1]["dev"] = 0, 1
+        # at least one periodic message per device, so that a call which wrongly does nothing is visible
+        for dv in (0, 1):
+            mine = [m for m in msgs if m["dev"] == dv]
+            if all(m["period"] == -1 for m in mine):
+                mine[0]["period"] = rng.choice([1, 2, 3, 5, 10])
+                mine[0]["omit_period"] = False
+    return {"msgs": msgs, "two": two}
 
 
 def device_text(dev):
@@ -38,27 +52,38 @@ def device_text(dev):
             out.append(f"    f{j} @ {j}: {t},")
         out.append("}")
         per = "" if m.get("omit_period") else f"    period: {m['period']},\n"
-        out.append(f"impl can for {m['name']} {{\n    id: {m['id']},\n    device: \"ecu\",\n{per}}}")
+        out.append(f"impl can for {m['name']} {{\n    id: {m['id']},\n    device: \"{DEVNAMES[m.get('dev', 0)]}\",\n{per}}}")
     return "\n".join(out) + "\n"
 
 
+def _snake(name):
+    return "".join(["_" + c.lower() if c.isupper() else c for c in name]).lstrip("_")
+
+
 def main_c(dev):
-    sets = []
+    ndev = 2 if dev.get("two") else 1
+    sets = {0: [], 1: []}
     for m in dev["msgs"]:
-        sn = m["name"].lower() if False else "".join(["_" + c.lower() if c.isupper() else c for c in m["name"]]).lstrip("_")
+        sn = _snake(m["name"])
         for j, (t, w) in enumerate(m["fields"]):
-            sets.append(f"        dev.{sn}.f{j} = (uint{w}_t) v;")
+            sets[m.get("dev", 0)].append(f"            dev{m.get('dev', 0)}.{sn}.f{j} = (uint{w}_t) v;")
+    incl = "".join(f'#include "{DEVNAMES[k]}_can.h"\n' for k in range(ndev))
+    decl = "".join(f"    CanDevice{DEVNAMES[k].capitalize()} dev{k};\n    memset(&dev{k}, 0, sizeof dev{k});\n" for k in range(ndev))
+    body = ""
+    for k in range(ndev):
+        body += (f"        if (d == {k}) {{\n" + "\n".join(sets[k]) + "\n"
+                 '            printf("C\\n");\n'
+                 f"            can_send_{DEVNAMES[k]}_msgs_scheduled(&dev{k}, (uint32_t) t, snd);\n        }}\n")
     return (
-        '#include <stdio.h>\n#include <stdlib.h>\n#include <string.h>\n#include <stdint.h>\n#include "ecu_can.h"\n'
+        '#include <stdio.h>\n#include <stdlib.h>\n#include <string.h>\n#include <stdint.h>\n' + incl +
         "static void snd(const CanFrame *f) {\n"
         '    printf("F %u %u", (unsigned) f->id, (unsigned) f->dlc);\n'
         '    for (int i = 0; i < 8; i++) printf(" %u", (unsigned) f->data[i]);\n'
         '    printf("\\n");\n}\n'
-        "int main(void) {\n    CanDeviceEcu dev;\n    memset(&dev, 0, sizeof dev);\n"
-        "    unsigned long long t, v;\n"
-        '    while (scanf("%llu %llu", &t, &v) == 2) {\n' + "\n".join(sets) + "\n"
-        '        printf("C\\n");\n'
-        "        can_send_ecu_msgs_scheduled(&dev, (uint32_t) t, snd);\n    }\n    return 0;\n}\n"
+        "int main(void) {\n" + decl +
+        "    unsigned long long d, t, v;\n"
+        '    while (scanf("%llu %llu %llu", &d, &t, &v) == 3) {\n' + body +
+        "    }\n    return 0;\n}\n"
     )
 
 
@@ -72,6 +97,8 @@ def expected_frame(m, v):
 
 
 def gen_history(rng, dev, length):
+    """calls (time, value, device index); with two devices mostly the usual tick loop `ecu(t); dash(t);` (both schedulers
+    called with the same timestamp), sometimes only one of them or in the other order"""
     ps = [m["period"] for m in dev["msgs"] if m["period"] > 0] or [5]
     t = 0
     out = []
@@ -79,7 +106,12 @@ def gen_history(rng, dev, length):
         P = rng.choice(ps)
         d = rng.choice([0, 1, max(P - 1, 0), P, P + 1, 2 * P, W - 1, W - P, rng.randint(0, 3 * P)])
         t = (t + d) % W
-        out.append((t, rng.getrandbits(32)))
+        if dev.get("two"):
+            order = rng.choice([[0, 1], [0, 1], [1, 0], [0], [1]])
+            for dv in order:
+                out.append((t, rng.getrandbits(32), dv))
+        else:
+            out.append((t, rng.getrandbits(32), 0))
     return out
 
 
@@ -96,19 +128,21 @@ def parse_output(text):
 
 
 def reference(dev, hist):
-    """the 10-line reference automaton of the property statement (direct oracle)"""
-    last_call = 0
+    """the 10-line reference automaton of the property statement (direct oracle), one per device"""
+    last_call = {0: 0, 1: 0}
     last_tx = [0] * len(dev["msgs"])
     out = []
-    for t, v in hist:
+    for t, v, dv in hist:
         sent = []
-        if t != last_call:
+        if t != last_call[dv]:
             for i, m in enumerate(dev["msgs"]):
+                if m.get("dev", 0) != dv:
+                    continue
                 P = m["period"]
                 if P != -1 and (t - last_tx[i]) % W >= P % W:
                     sent.append(expected_frame(m, v))
                     last_tx[i] = t
-        last_call = t
+        last_call[dv] = t
         out.append(sent)
     return out
 
@@ -118,7 +152,7 @@ def run(prop, tier, replay=None):
     rng = random.Random(seed() * 104729 + 19)
     rep.check_proofs()
     ndev, nhist = (24, 40) if tier == "quick" else (200, 150)
-    devs = [gen_device(rng) for _ in range(ndev)]
+    devs = [gen_device(rng, two=(k % 3 == 2)) for k in range(ndev)]
     hists = [[gen_history(rng, d, rng.randint(1, 30 if tier == "quick" else 200)) for _ in range(nhist)] for d in devs]
     exhaustive = False
     if tier == "thorough":
@@ -134,7 +168,7 @@ def run(prop, tier, replay=None):
                     h = []
                     for dl in deltas:
                         t = (t + dl) % W
-                        h.append((t, t & 0xFF))
+                        h.append((t, t & 0xFF, 0))
                     hs.append(h)
             devs.append(d)
             hists.append(hs)
@@ -161,7 +195,7 @@ def run(prop, tier, replay=None):
 
         def run_one(job):
             k, h = job
-            rc, so, se = cbuild.run(builds[k][1], "".join(f"{t} {v}\n" for t, v in h))
+            rc, so, se = cbuild.run(builds[k][1], "".join(f"{dv} {t} {v}\n" for t, v, dv in h))
             return rc, so
 
         outs = cbuild.parallel(run_one, jobs)
@@ -169,10 +203,19 @@ def run(prop, tier, replay=None):
         for d, exe, out in builds:
             if d:
                 cbuild.cleanup(d)
-    mres = run_driver_parallel(
-        [{"op": "sched", "periods": [m["period"] for m in devs[k]["msgs"]], "times": [t for t, _ in h]} for k, h in jobs]
-    )
-    for (k, h), (rc, so), m in zip(jobs, outs, mres):
+    # the Lean model is asked per device: its messages and its own call times
+    mjobs = []
+    for k, h in jobs:
+        for dv in ((0, 1) if devs[k].get("two") else (0,)):
+            mjobs.append({"op": "sched", "periods": [m["period"] for m in devs[k]["msgs"] if m.get("dev", 0) == dv],
+                          "times": [t for t, _, d_ in h if d_ == dv]})
+    mflat = run_driver_parallel(mjobs)
+    mres, pos = [], 0
+    for k, h in jobs:
+        nd = 2 if devs[k].get("two") else 1
+        mres.append(mflat[pos:pos + nd])
+        pos += nd
+    for (k, h), (rc, so), ms in zip(jobs, outs, mres):
         dev = devs[k]
         rep.count(json.dumps([device_text(dev), h]))
         rep.sample({"device": device_text(dev), "history": h[:10], "output": so[:300]}, limit=3)
@@ -193,12 +236,16 @@ def run(prop, tier, replay=None):
                                what="frames sent on a call differ from the reference automaton"))
             continue
         # correspondence with the Lean model (which messages are sent on which call)
-        flags = [[any(f[0] == mm["id"] and f == expected_frame(mm, v) for f in c) for mm in dev["msgs"]]
-                 for c, (t, v) in zip(calls, h)]
-        if len({mm["id"] for mm in dev["msgs"]}) == len(dev["msgs"]) and flags != m.get("sent"):
-            rep.cov["disagreements_checked"] += 1
-            rep.violation(dict(base, kind="sched-correspondence", observed=flags, expected=m.get("sent"),
-                               what="compiled scheduler and Lean Sched model disagree"), no_input=True)
+        rep.hist("devices_in_program", 2 if dev.get("two") else 1)
+        for dv, m in enumerate(ms):
+            mine = [mm for mm in dev["msgs"] if mm.get("dev", 0) == dv]
+            flags = [[any(f[0] == mm["id"] and f == expected_frame(mm, v) for f in c) for mm in mine]
+                     for c, (t, v, d_) in zip(calls, h) if d_ == dv]
+            if len({mm["id"] for mm in dev["msgs"]}) == len(dev["msgs"]) and flags != m.get("sent"):
+                rep.cov["disagreements_checked"] += 1
+                rep.violation(dict(base, kind="sched-correspondence", device_index=dv, observed=flags, expected=m.get("sent"),
+                                   what="compiled scheduler and Lean Sched model disagree"), no_input=True)
+                break
     if exhaustive:
         rep.cov["exhaustive"] = True
         rep.cov["exhaustive_scope"] = "periods [3], [-1], [2,5], [4,-1]: all histories of length <= 5 over deltas {0,1,P-1,P,P+1,2P,2^32-1}"
